@@ -55,7 +55,7 @@ func hasProp(ps []string, p string) bool {
 }
 
 func newExec(ck *Checker, fn *ssa.Function, ctr *FuncContract) *Exec {
-	x := &Exec{ck: ck, fn: fn, ctr: ctr, pre: newPreamble(), heapInfo: map[string]heapMeta{}, assumptions: map[string]bool{}, mapInfo: map[string]string{}, falsePost: true}
+	x := &Exec{ck: ck, fn: fn, ctr: ctr, pre: newPreamble(), heapInfo: map[string]heapMeta{}, assumptions: map[string]bool{}, mapInfo: map[string]string{}, falsePost: true, pendingMapHavoc: map[string]bool{}}
 	if ctr != nil {
 		x.nopanic = ctr.NoPanic
 	}
